@@ -13,6 +13,7 @@ import (
 	"context"
 	"time"
 
+	"github.com/bluenviron/mediacommon/v2/pkg/codecs/mpeg4audio"
 	"github.com/bluenviron/mediacommon/v2/pkg/formats/fmp4"
 	"github.com/bluenviron/mediacommon/v2/pkg/formats/fmp4/seekablebuffer"
 )
@@ -150,6 +151,25 @@ func verifRunFMP4(in *fmp4.Init, segs [][]*fmp4.Part, dts []*time.Time) *vProcRe
 	return res
 }
 
+// verifVideoSample: the fMP4 sample payload of a one-unit access unit of the chosen codec and the unit a client must deliver
+func verifVideoSample(vc int, tag byte) (payload []byte, unit []byte) {
+	var ps fmp4.PartSample
+	switch vc {
+	case 1:
+		unit = []byte{19 << 1, 1, tag}
+		ps.FillH265(0, [][]byte{unit}) //nolint:errcheck
+		return ps.Payload, unit
+	case 2:
+		unit = []byte{0x86, 0x00, tag}
+		return unit, unit
+	case 3:
+		unit = []byte{0x32, 0x02, 0x01, tag}
+		ps.FillAV1([][]byte{unit}) //nolint:errcheck
+		return ps.Payload, unit
+	}
+	return verifH264Payload(tag), []byte{5, tag}
+}
+
 func verifH264Payload(tag byte) []byte {
 	var ps fmp4.PartSample
 	ps.FillH264(0, [][]byte{{5, tag}}) //nolint:errcheck
@@ -163,9 +183,27 @@ func VerifH_C10_fmp4() {
 	rateV := 90000
 	rateA := []int{48000, 44100}[verifChoice("audiorate", 2)]
 	withAudio := verifBool("withaudio")
-	in := &fmp4.Init{Tracks: []*fmp4.InitTrack{{ID: 1, TimeScale: uint32(rateV), Codec: &fmp4.CodecH264{SPS: verifTestSPS, PPS: []byte{8}}}}}
+	// CODECS=1: the video codec is one of H265 / VP9 / AV1 and the audio codec MPEG-4 audio (default: H264 + Opus)
+	vc := 0
+	if verifParam("CODECS", 0) == 1 {
+		vc = 1 + verifChoice("vcodec", 3)
+	}
+	var vcodec fmp4.Codec = &fmp4.CodecH264{SPS: verifTestSPS, PPS: []byte{8}}
+	switch vc {
+	case 1:
+		vcodec = &fmp4.CodecH265{VPS: verifH265VPS, SPS: verifH265SPS, PPS: verifH265PPS(0)}
+	case 2:
+		vcodec = &fmp4.CodecVP9{Width: 1920, Height: 804, Profile: 0, BitDepth: 8, ChromaSubsampling: 1}
+	case 3:
+		vcodec = &fmp4.CodecAV1{SequenceHeader: verifAV1Seq}
+	}
+	in := &fmp4.Init{Tracks: []*fmp4.InitTrack{{ID: 1, TimeScale: uint32(rateV), Codec: vcodec}}}
 	if withAudio {
-		in.Tracks = append(in.Tracks, &fmp4.InitTrack{ID: 2, TimeScale: uint32(rateA), Codec: &fmp4.CodecOpus{ChannelCount: 2}})
+		var acodec fmp4.Codec = &fmp4.CodecOpus{ChannelCount: 2}
+		if vc != 0 {
+			acodec = &fmp4.CodecMPEG4Audio{Config: mpeg4audio.Config{Type: 2, SampleRate: rateA, ChannelCount: 2}}
+		}
+		in.Tracks = append(in.Tracks, &fmp4.InitTrack{ID: 2, TimeScale: uint32(rateA), Codec: acodec})
 	}
 	nseg := 1 + verifChoice("nsegs", verifParam("MAXSEGS", 2))
 	dtMode := verifParam("DATETIME", 0) // 0: no PROGRAM-DATE-TIME (time normalisation); 1: always (AbsoluteTime)
@@ -202,9 +240,9 @@ func VerifH_C10_fmp4() {
 			for k := 0; k < ns; k++ {
 				dur := uint32(verifRangeI64("vdur", 0, 1<<20))
 				off := int32(verifRangeI64("vptsoff", -(1 << 16), 1<<16))
-				pl := verifH264Payload(tag)
+				pl, unit := verifVideoSample(vc, tag)
 				vt.Samples = append(vt.Samples, &fmp4.PartSample{Duration: dur, PTSOffset: off, Payload: pl, IsNonSyncSample: k > 0})
-				want = append(want, exp{track: 0, dts: cur - origin, pts: cur - origin + int64(off), payload: []byte{5, tag}, seg: s, segFirst: segFirst})
+				want = append(want, exp{track: 0, dts: cur - origin, pts: cur - origin + int64(off), payload: unit, seg: s, segFirst: segFirst})
 				tag++
 				cur += int64(dur)
 			}
